@@ -36,6 +36,11 @@ pub struct Resource {
 #[derive(Default)]
 pub struct State {
     pub resources: HashMap<String, Resource>,
+    /// static directories: URL path prefix (ending in '/') -> directory; served like an ordinary web
+    /// server does (query string dropped, path percent-decoded, no `..` segments)
+    pub dirs: Vec<(String, std::path::PathBuf)>,
+    /// requests answered from static directories: (request path as received, status)
+    pub dir_log: Vec<(String, u16)>,
 }
 
 #[derive(Clone)]
@@ -78,6 +83,19 @@ impl Server {
                 log: Vec::new(),
             },
         );
+    }
+
+    pub fn add_dir(&self, prefix: &str, dir: &std::path::Path) {
+        self.state.lock().unwrap().dirs.push((prefix.to_string(), dir.to_path_buf()));
+    }
+
+    /// Removes the directory and returns the requests that were answered from it.
+    pub fn remove_dir(&self, prefix: &str) -> Vec<(String, u16)> {
+        let mut g = self.state.lock().unwrap();
+        g.dirs.retain(|(p, _)| p != prefix);
+        let (mine, rest): (Vec<_>, Vec<_>) = std::mem::take(&mut g.dir_log).into_iter().partition(|(p, _)| p.starts_with(prefix));
+        g.dir_log = rest;
+        mine
     }
 
     pub fn take(&self, path: &str) -> Option<Resource> {
@@ -131,8 +149,33 @@ fn handle(mut conn: TcpStream, st: Arc<Mutex<State>>) {
             g.resources.contains_key(&dec).then_some(dec)
         };
         let Some(key) = key else {
+            // static directory?
+            let no_query = path.split('?').next().unwrap_or("").to_string();
+            let dec = pct_decode(&no_query);
+            let file = g.dirs.iter().find(|(p, _)| dec.starts_with(p.as_str())).and_then(|(p, d)| {
+                let rel = &dec[p.len()..];
+                if rel.is_empty() || rel.split('/').any(|s| s == ".." || s == "." || s.is_empty()) || rel.contains('\0') {
+                    return None;
+                }
+                Some(d.join(rel))
+            });
+            let body = file.and_then(|f| if f.is_file() { std::fs::read(&f).ok() } else { None });
+            let status = if body.is_some() { 200 } else { 404 };
+            if g.dirs.iter().any(|(p, _)| path.starts_with(p.as_str())) {
+                g.dir_log.push((path.clone(), status));
+            }
             drop(g);
-            let _ = conn.write_all(b"HTTP/1.1 404 Not Found\r\nContent-Length: 0\r\nConnection: close\r\n\r\n");
+            match body {
+                Some(b) => {
+                    let mut all = format!("HTTP/1.1 200 OK\r\nContent-Type: application/octet-stream\r\nContent-Length: {}\r\nConnection: close\r\n\r\n", b.len()).into_bytes();
+                    all.extend_from_slice(&b);
+                    let _ = conn.write_all(&all);
+                    let _ = conn.flush();
+                }
+                None => {
+                    let _ = conn.write_all(b"HTTP/1.1 404 Not Found\r\nContent-Length: 0\r\nConnection: close\r\n\r\n");
+                }
+            }
             return;
         };
         let r = g.resources.get_mut(&key).unwrap();
